@@ -96,16 +96,26 @@ pub(super) async fn apply_operations(
 
 /// Apply a [`SyncOp`] to the TaskDb's set of tasks (without recording it in the list of operations)
 pub(super) async fn apply_op(txn: &mut dyn StorageTxn, op: &SyncOp) -> Result<()> {
+    try_apply_op(txn, op).await?.map_err(Error::Database)
+}
+
+/// Apply a [`SyncOp`] like [`apply_op`], but distinguish an operation that does not make sense
+/// in the current state (the inner `Err`, which leaves the storage unchanged) from a failure of
+/// the storage itself (the outer `Err`).
+pub(super) async fn try_apply_op(
+    txn: &mut dyn StorageTxn,
+    op: &SyncOp,
+) -> Result<std::result::Result<(), String>> {
     match op {
         SyncOp::Create { uuid } => {
             // insert if the task does not already exist
             if !txn.create_task(*uuid).await? {
-                return Err(Error::Database(format!("Task {uuid} already exists")));
+                return Ok(Err(format!("Task {uuid} already exists")));
             }
         }
         SyncOp::Delete { ref uuid } => {
             if !txn.delete_task(*uuid).await? {
-                return Err(Error::Database(format!("Task {uuid} does not exist")));
+                return Ok(Err(format!("Task {uuid} does not exist")));
             }
         }
         SyncOp::Update {
@@ -122,12 +132,12 @@ pub(super) async fn apply_op(txn: &mut dyn StorageTxn, op: &SyncOp) -> Result<()
                 };
                 txn.set_task(*uuid, task).await?;
             } else {
-                return Err(Error::Database(format!("Task {uuid} does not exist")));
+                return Ok(Err(format!("Task {uuid} does not exist")));
             }
         }
     }
 
-    Ok(())
+    Ok(Ok(()))
 }
 
 #[cfg(test)]
